@@ -32,6 +32,7 @@ type p2pEnv struct {
 	fork   []*vhdr.Header
 	closer func()
 
+	nilGater     bool // the Exchange is built without a connection gater
 	emptyTracker bool // C09: WithTrustedHead cases run with an empty peer tracker (fallback to the trusted peers)
 }
 
@@ -62,6 +63,9 @@ func (e *p2pEnv) client(trusted []peer.ID, chunk uint64, timeout time.Duration) 
 	}
 	if chunk > 0 {
 		opts = append(opts, p2p.WithMaxHeadersPerRangeRequest(chunk))
+	}
+	if e.nilGater {
+		gater = nil // a configuration the constructor accepts (the library's own tests use it)
 	}
 	ex, err := p2p.NewExchange[*vhdr.Header](e.hosts[0], trusted, gater, opts...)
 	if err != nil {
